@@ -7,8 +7,14 @@ import (
 
 // hasDeclarationPrefix reports whether the trimmed line starts with prefix and the name that ends the
 // prefix is not continued by further identifier characters.
+// Keywords and name may be separated by any run of the blanks the lexer accepts as whitespace (space, tab,
+// form feed); the prefix is written with single spaces, so runs of blanks in the line are read as one space.
 func hasDeclarationPrefix(line string, prefix string) bool {
-	rest, found := strings.CutPrefix(strings.TrimSpace(line), prefix)
+	words := strings.FieldsFunc(strings.TrimSpace(line), func(r rune) bool {
+		return r == ' ' || r == '\t' || r == '\f'
+	})
+
+	rest, found := strings.CutPrefix(strings.Join(words, " "), prefix)
 	if !found {
 		return false
 	}
